@@ -19,6 +19,27 @@ pub fn types_text(ff: &UFF) -> String {
 
 pub struct Built { pub conn: Conn, pub uff: Option<(String, Vec<TermDesc>)>, pub rb: Vec<TermDesc> }
 
+/// The same as `build_all`, but the molecule reaches its final geometry the way a script does: perceived once at another
+/// geometry (`first`), then given the final coordinates and re-perceived through the scripting wrapper. Nothing of the
+/// first perception may survive into the force field.
+pub fn build_all_regenerated(first: &Mol, m: &Mol) -> Option<Built> {
+    let syms = m.symbols();
+    let refs: Vec<&str> = syms.iter().map(|x| x.as_str()).collect();
+    let mol = catch(|| {
+        let mut w = Wrapper::from_atomic_symbols(&refs);
+        w.set_coordinates(first.xs.iter().flat_map(|p| p.to_vec()).collect());
+        w.generate_connectivity();
+        w.set_coordinates(m.xs.iter().flat_map(|p| p.to_vec()).collect());
+        w.generate_connectivity();
+        w
+    })?;
+    let mol = mol.molecule();
+    let conn = connectivity(mol);
+    let uff = catch(|| UFF::new(mol)).map(|f| (types_text(&f), f.verif_terms()));
+    let rb = catch(|| RB::new(mol)).map(|f| f.verif_terms()).unwrap_or_default();
+    Some(Built { conn, uff, rb })
+}
+
 pub fn build_all(m: &Mol) -> Option<Built> {
     let mol = catch(|| m.build())?;
     let conn = connectivity(&mol);
@@ -142,6 +163,24 @@ pub fn run(out: &mut Out, seed: u64, tier: &str) {
         out.case(&format!("build rb {}", m.line()), &format!("types - terms {}", sorted_terms(&b.rb)));
         oracle_c11(out, m, &b);
     }
+    // molecules that were perceived at another geometry first and re-perceived at this one (a bond stretched until it breaks, a
+    // chain folded, the compact start of a library molecule blown up and brought back): same model input, same expected output
+    let mut n_regen = 0usize;
+    for (k, m) in mols.iter().enumerate() {
+        if m.n() < 3 || m.n() > 16 || (tier != "thorough" && k % 7 != 0) { continue; }
+        let mut first = m.clone();
+        match k % 3 {
+            0 => { let a = rng.below(m.n()); for c in 0..3 { first.xs[a][c] += 10.0; } }                         // one atom far away at first
+            1 => { for p in first.xs.iter_mut() { for c in 0..3 { p[c] *= 0.75; } } }                            // compressed at first: more bonds
+            _ => { let h = m.n() / 2; for p in first.xs.iter_mut().skip(h) { p[0] += 8.0; } }                    // two halves apart at first
+        }
+        let b = match build_all_regenerated(&first, m) { Some(b) => b, None => continue };
+        let uff_text = match &b.uff { Some((types, terms)) => format!("types {} terms {}", types, sorted_terms(terms)), None => "PANIC".to_string() };
+        out.case(&format!("build uff {}", m.line()), &uff_text);
+        oracle_c11(out, m, &b);
+        n_regen += 1;
+    }
+    out.stat("molecules_reperceived_through_the_wrapper", n_regen);
     out.stat("molecules", n);
     out.stat("uff_construction_aborts", panics);
     out.stat("distinct_atom_types_assigned", type_hist.len());
